@@ -11,8 +11,8 @@
     [itf8_Decode] are regenerated from the Go source on every run. *)
 From Coq Require Import ZArith List Bool.
 From Hts Require Import Base.Prim Base.DecBase Generated
-  Model.DecText Model.DecBam Model.DecIndex Model.DecCram
-  Proofs.DecText Proofs.DecBam Proofs.DecIndex Proofs.DecCram.
+  Model.DecText Model.DecBam Model.DecIndex Model.DecCram Model.DecBgzf
+  Proofs.DecText Proofs.DecBam Proofs.DecIndex Proofs.DecCram Proofs.DecBgzf.
 Open Scope Z_scope.
 
 (* ------------------------------------------------ CIGAR tables and accessors *)
@@ -159,6 +159,23 @@ Theorem cram_block_value_safe :
     safe (block_value unz lib b).
 Proof. exact block_value_safe_gen. Qed.
 Print Assumptions cram_block_value_safe.
+
+(* -------------------------------------------------------------------- BGZF *)
+
+(** expectedMemberSize (translated from bgzf/reader.go) returns for every Extra
+    field, whatever position bytes.Index reports for the BC subfield prefix:
+    h.Extra[i+4] and h.Extra[i+5] are covered by the guard in front of them. *)
+Theorem bgzf_member_size_total :
+  forall (bytes_index : list Z -> list Z -> Z) extra, safe (c11_expectedMemberSize bytes_index extra).
+Proof. exact expectedMemberSize_safe. Qed.
+Print Assumptions bgzf_member_size_total.
+
+(** decompressor.readMember: the gzip member header walk (FEXTRA/XLEN, FNAME,
+    FCOMMENT, FHCRC), expectedMemberSize, need = blockSize - skipped and
+    r.data[:need] of the 64 KiB buffer, on every byte string. *)
+Theorem bgzf_read_member_total : forall hcrc_ok s, all_bytes s = true -> safe (bgzf_read_member hcrc_ok s).
+Proof. exact bgzf_read_member_total_gen. Qed.
+Print Assumptions bgzf_read_member_total.
 
 (* ------------------------------------------------------------- non-vacuity *)
 
